@@ -410,6 +410,10 @@ fn scenario(s: Scn) -> ScenarioOut {
 
 /// Synchronous trigger path: the filesystem corruption hook.
 fn corruption_scenario(seed: u64) -> ScenarioOut {
+    corruption_scenario_sized(seed, None)
+}
+
+fn corruption_scenario_sized(seed: u64, max_reads: Option<u64>) -> ScenarioOut {
     let mut out = ScenarioOut::default();
     let mut r = Rng::new(seed);
     let prob = r.pick_copy(&[1.0f64, 1.0, 0.5]);
@@ -419,7 +423,7 @@ fn corruption_scenario(seed: u64) -> ScenarioOut {
     b.epoch(epoch(0)).rng_seed(seed).simulation_duration(Duration::from_secs(1000));
     b.fs().corruption_probability(prob);
     let mut sim = b.build();
-    let nreads = r.range(3, 30);
+    let nreads = r.range(3, 30).min(max_reads.unwrap_or(u64::MAX));
     let plan: Vec<(usize, u64, usize)> = (0..nreads).map(|_| (r.usize_below(2), r.range(0, 200), r.range(1, 64) as usize)).collect();
     let observed_path = if r.coin() { Some(0usize) } else { None };
     let mut bar: Barrier<FsCorruption> = match observed_path {
@@ -486,7 +490,77 @@ fn corruption_scenario(seed: u64) -> ScenarioOut {
     out
 }
 
+/// Small workload executed under Miri (`simnet C20 --miri-child`): the
+/// synchronous FsCorruption trigger path goes through a lifetime-erased raw
+/// pointer to the hook (`turmoil_fs::enter` / `fire_corruption`), the barrier
+/// registry hands boxed `dyn Any` values across tasks.
+fn miri_child(ctx: &Ctx) -> ! {
+    let mut scenarios = 0u64;
+    let mut complaints = 0u64;
+    let mut reports = 0u64;
+    for i in 0..2u64 {
+        let out = corruption_scenario_sized(ctx.scenario_seed("c20miri-fs", i), Some(5));
+        scenarios += 1;
+        complaints += out.violations.len() as u64;
+        reports += out.counters.iter().filter(|c| c.0 == "fs_corruption_reports").map(|c| c.1).sum::<u64>();
+    }
+    for i in 0..2u64 {
+        let mut s = gen(ctx.scenario_seed("c20miri", i));
+        s.steps = s.steps.min(10);
+        s.tasks.truncate(2);
+        let out = scenario(s);
+        scenarios += 1;
+        complaints += out.violations.len() as u64;
+    }
+    println!("SAN-CHILD-OK prop=c20 scenarios={scenarios} oracle_complaints={complaints} fs_corruption_reports={reports}");
+    std::process::exit(0)
+}
+
+/// Thorough tier: run the Miri child; UB -> violation, Miri unavailable -> inconclusive.
+fn run_miri(ctx: &Ctx, report: &mut vcore::Report) {
+    let t0 = std::time::Instant::now();
+    let dir = std::path::PathBuf::from(env!("CARGO_MANIFEST_DIR")).join("..");
+    let out = std::process::Command::new("cargo")
+        .current_dir(&dir)
+        .args(["+nightly", "miri", "run", "--offline", "-q", "-p", "simnet", "--target-dir"])
+        .arg(dir.join("target-miri"))
+        .args(["--", "C20", "--miri-child"])
+        .env("MIRIFLAGS", "-Zmiri-disable-isolation")
+        .env("VERIF_SEED", ctx.seed.to_string())
+        .env_remove("RUSTFLAGS")
+        .output();
+    let wall = t0.elapsed().as_secs_f64();
+    let (ran, ub, summary, detail) = match out {
+        Err(e) => (false, 0, String::new(), format!("cannot spawn cargo miri: {e}")),
+        Ok(o) => {
+            let so = String::from_utf8_lossy(&o.stdout).to_string();
+            let se = String::from_utf8_lossy(&o.stderr).to_string();
+            let ub = se.matches("error: Undefined Behavior").count();
+            let summary = so.lines().find(|l| l.starts_with("SAN-CHILD-OK")).unwrap_or("").to_string();
+            let ran = ub > 0 || (o.status.success() && !summary.is_empty());
+            let start = se.find("Undefined Behavior").unwrap_or(se.len().saturating_sub(600));
+            (ran, ub, summary, se[start.saturating_sub(7).min(se.len())..].chars().take(1200).collect::<String>())
+        }
+    };
+    report.extra.insert("miri".into(), json!({"ran": ran, "undefined_behaviour_reports": ub, "child_summary": summary, "wall_s": (wall * 10.0).round() / 10.0, "detail": if ub > 0 || !ran { detail.clone() } else { String::new() }}));
+    if ub > 0 {
+        let v = vcore::Violation {
+            class: "miri-undefined-behaviour".into(),
+            signature: "C20|miri-undefined-behaviour".into(),
+            what: format!("Miri reported undefined behaviour while the barrier / FsCorruption-hook workload ran: {}", detail.lines().next().unwrap_or("")),
+            witness: json!({"rerun": "cd /verif/harness && MIRIFLAGS=-Zmiri-disable-isolation cargo +nightly miri run --offline -p simnet --target-dir target-miri -- C20 --miri-child", "detail": detail}),
+        };
+        report.violation_count += 1;
+        report.violations.insert(v.signature.clone(), v);
+    } else if !ran {
+        report.harness_errors.push(format!("Miri phase could not run: {}", detail.chars().take(300).collect::<String>()));
+    }
+}
+
 pub fn run(ctx: &Ctx) -> ! {
+    if ctx.rest.iter().any(|a| a == "--miri-child") {
+        miri_child(ctx);
+    }
     if ctx.replay.is_some() {
         let w = vcore::read_replay(ctx).expect("replay file");
         let report = if let Some(seed) = w.get("corruption_seed").and_then(|x| x.as_u64()) {
@@ -517,6 +591,10 @@ pub fn run(ctx: &Ctx) -> ! {
             }
         },
     );
+    let mut report = report;
+    if !ctx.quick() {
+        run_miri(ctx, &mut report);
+    }
     vcore::finish(ctx, report, fin());
 }
 
